@@ -54,6 +54,7 @@ type Action struct {
 	Providers []string `json:"providers,omitempty"`     // hex
 	Input     string   `json:"input,omitempty"`
 	FeeCap    *int64   `json:"fee_cap,omitempty"` // nil => empty coin list
+	CapDenom  string   `json:"cap_denom,omitempty"` // denomination of the fee cap ("" = stake)
 	Timeout   int64    `json:"timeout,omitempty"`
 	Super     bool     `json:"super,omitempty"`
 	Repeated  bool     `json:"repeated,omitempty"`
@@ -121,6 +122,15 @@ func coinsOf(p *int64) sdk.Coins {
 	return sdk.Coins{sdk.Coin{Denom: "stake", Amount: sdk.NewInt(*p)}}
 }
 
+// capOf: the fee cap of a call / context update, in the denomination the action names
+func (a Action) capOf() sdk.Coins {
+	c := coinsOf(a.FeeCap)
+	if c != nil && a.CapDenom != "" {
+		c[0].Denom = a.CapDenom
+	}
+	return c
+}
+
 func i64(v int64) *int64 { return &v }
 
 // IsMsg reports whether the action is a single module message.
@@ -151,7 +161,7 @@ func (a Action) Msg() sdk.Msg {
 	case KRefundDep:
 		return types.NewMsgRefundServiceDeposit(a.Service, addr(a.Provider), addr(a.Signer))
 	case KCall:
-		return types.NewMsgCallService(a.Service, addrs(a.Providers), addr(a.Signer), a.Input, coinsOf(a.FeeCap),
+		return types.NewMsgCallService(a.Service, addrs(a.Providers), addr(a.Signer), a.Input, a.capOf(),
 			a.Timeout, a.Super, a.Repeated, a.Freq, a.Total)
 	case KRespond:
 		return types.NewMsgRespondService(unhx(a.ReqID), addr(a.Signer), a.Result, a.Output)
@@ -162,7 +172,7 @@ func (a Action) Msg() sdk.Msg {
 	case KKill:
 		return types.NewMsgKillRequestContext(unhx(a.CtxID), addr(a.Signer))
 	case KUpdateCtx:
-		return types.NewMsgUpdateRequestContext(unhx(a.CtxID), addrs(a.Providers), coinsOf(a.FeeCap), a.Timeout, a.Freq, a.Total, addr(a.Signer))
+		return types.NewMsgUpdateRequestContext(unhx(a.CtxID), addrs(a.Providers), a.capOf(), a.Timeout, a.Freq, a.Total, addr(a.Signer))
 	case KWithdraw:
 		return types.NewMsgWithdrawEarnedFees(addr(a.Signer), addr(a.Provider))
 	}
